@@ -4,6 +4,8 @@ import (
 	"fmt"
 	"sort"
 
+	"github.com/anishathalye/porcupine"
+
 	"verif/ev"
 )
 
@@ -501,6 +503,7 @@ func (a *Analyzer) finishClients() {
 		}
 	}
 	a.rep.Stats["real-time-pairs-covered"] = int64(len(okUpdates))
+	a.porcupineOpinion()
 
 	// reads and barriers answered by a leader reflect every update that
 	// returned through that node before the read was called, and every update
@@ -547,5 +550,48 @@ func (a *Analyzer) finishClients() {
 			}
 		}
 		a.stat("leader-reads-checked")
+	}
+}
+
+// porcupineOpinion builds, per cluster, the history of updates that took
+// effect (successful ones with the position they reported; ambiguous ones -
+// lost leadership, server closed, never returned - with the position at which
+// they are in the global sequence and an open end), and lets porcupine search
+// for a linearization.
+func (a *Analyzer) porcupineOpinion() {
+	const inf = int64(1) << 60
+	byCid := map[uint64][]porcupine.Operation{}
+	for _, oid := range a.opOrder {
+		op := a.ops[oid]
+		c := op.rec
+		cid := op.node.cid
+		switch c.Op {
+		case "update":
+			pos, inG := a.gPos[cid][c.Val]
+			if op.ret != nil && op.ret.Kind == "ok" {
+				byCid[cid] = append(byCid[cid], porcupine.Operation{ClientId: c.Cl, Input: pcIn{true, c.Val}, Call: op.callSeq, Output: pcOut{pos: op.ret.Pos}, Return: op.retSeq})
+			} else if inG {
+				byCid[cid] = append(byCid[cid], porcupine.Operation{ClientId: c.Cl, Input: pcIn{true, c.Val}, Call: op.callSeq, Output: pcOut{pos: pos}, Return: inf})
+			}
+		}
+		// (reads are left out: the property binds a read only to the updates its
+		// answering leader accepted - a stale read from a deposed leader is legal
+		// and would not be linearizable)
+	}
+	for cid, ops := range byCid {
+		if len(ops) == 0 {
+			continue
+		}
+		// updates applied on behalf of nobody (harness convergence probes use
+		// client 99 and are in the history too), so the model sees every position
+		switch porcupineCheck(ops) {
+		case "ok":
+			a.stat("porcupine-ok")
+			a.rep.Stats["porcupine-operations"] += int64(len(ops))
+		case "illegal":
+			a.find("C07", "history-not-linearizable", "", 0, "porcupine finds no linearization of the %d update operations of cluster %d against the append-list model", len(ops), cid)
+		default:
+			a.stat("porcupine-timeout")
+		}
 	}
 }
